@@ -342,8 +342,13 @@ impl EventGen for SpecsElement {
         }
         if let Some(inner_events) = self.0.inner_events(context) {
             context.in_specs = true;
-            process_events(inner_events, context)?;
+            // content of <specs> is evaluated only to register it for reuse; it is
+            // not rendered, so it must not advance the document's random stream.
+            let rng = context.save_rng();
+            let res = process_events(inner_events, context);
+            context.restore_rng(rng);
             context.in_specs = false;
+            res?;
         }
         Ok((OutputList::new(), None))
     }
